@@ -9,14 +9,16 @@ cd $W && git checkout -q -- . && rm -rf tests && git clean -fdq -e target
 feat=""
 if grep -E "cargo test.*--test" $d/RUN.md | grep -q -- "--features"; then feat="--features svg,image"; fi
 if grep -qE "roxmltree|resvg|png::" $d/demo.rs; then feat="--features svg,image"; fi
+rf=""
+if grep -q "fast_qr_verif" $d/RUN.md; then rf="--cfg fast_qr_verif"; feat="--features svg"; fi
 git apply $d/patch.diff || { echo '{"applies": false}' > $d/confirm.json; exit 1; }
 b1=$(cargo build --offline 2>&1 | grep -c "^error")
 b2=$(cargo build --offline --features svg,image 2>&1 | grep -c "^error")
 lib=$(cargo test --offline --lib 2>&1 | grep "test result" | head -1)
 mkdir -p tests && cp $d/demo.rs tests/demo_x.rs
-withp=$(cargo test --offline --test demo_x $feat 2>&1 | grep "test result" | head -1)
+withp=$(RUSTFLAGS="$rf" cargo test --offline --test demo_x $feat 2>&1 | grep "test result" | head -1)
 git checkout -q -- . 
-withoutp=$(cargo test --offline --test demo_x $feat 2>&1 | grep "test result" | head -1)
+withoutp=$(RUSTFLAGS="$rf" cargo test --offline --test demo_x $feat 2>&1 | grep "test result" | head -1)
 rm -rf tests
 python3 - "$d" "$b1" "$b2" "$lib" "$withp" "$withoutp" "$feat" <<'PY'
 import json,sys
